@@ -174,6 +174,7 @@ func toolRuns(dir, f1, f2 string, env map[string]string, note string) [][]byte {
 		top = f2
 	}
 	run("bkl", top)
+	run("bkl", "-f", "json", top) // the JSON encoder can fail late (non-finite floats)
 	run("bkl", "-f", "yaml", top)
 	run("bkl", "-f", "toml", "-P", top)
 	run("bklr", "-f", "json", top)
@@ -518,6 +519,21 @@ func C08(r *Run) {
 			bs, _ := json.Marshal(doc)
 			os.WriteFile(filepath.Join(d, "a.json"), bs, 0o644)
 			return toolRuns(d, "a.json", "", nil, fmt.Sprintf("edge catalogue %d", i))
+		})
+	}
+	// ... and texts whose failure comes LATE, inside an encoder: a non-finite float in a later
+	// document of a stream (nothing may reach stdout before the failure)
+	for i, t := range []struct{ ext, text string }{
+		{"toml", "a = 1\n---\nb = inf\n"}, {"toml", "a = 1\n---\nb = nan\n"}, {"toml", "x = [1.5, -inf]\n"},
+		{"toml", "a = 1\n---\nb = 2\n---\nc = { d = nan }\n"}, {"yaml", "a: 1\n---\nb: !!float inf\n"}, {"yaml", "a: 1\n---\nb: .inf\n"},
+		{"yaml", "a: 1\n---\nb: !!float nan\n"},
+	} {
+		t, i := t, i
+		submit(func() [][]byte {
+			d := newDir()
+			defer os.RemoveAll(d)
+			os.WriteFile(filepath.Join(d, "a."+t.ext), []byte(t.text), 0o644)
+			return toolRuns(d, "a."+t.ext, "", nil, fmt.Sprintf("late encoder failure %d", i))
 		})
 	}
 	r.Cov["edge_catalogue_documents"] = len(edge)
